@@ -13,7 +13,8 @@
 (*   attrsSorted          reference form, document with the attributes of every element in name order            *)
 (*   xmlnsXml:<form>      <form> on the document with xmlns:xml declared explicitly on the document element      *)
 (*   noDtdRef, noDtd:<form>  reference form / <form> on the document without its DOCTYPE                         *)
-(*   noCdataElems:<form>  <form> with the stylesheet without cdata-section-elements                              *)
+(* (the fourth class, sourceTreeTargetDropsCdataText, is repaired: FormatterToSourceTree::cdata() adds the        *)
+(*  characters as text; its control experiment is gone, a recurrence is an unnamed tree disagreement)            *)
 EXTENDS Forms, TLC
 VARIABLES l, st, failed, done
 
@@ -39,8 +40,6 @@ KD(s, cfg, obs) ==
        THEN " KD=xmlNamespaceNodeXercesDOM"      \* with xmlns:xml declared in the document the same form agrees
      ELSE IF cfg.src \in DomSrcs /\ Has(s, "noDtdRef") /\ Has(s, "noDtd:" \o f) /\ Agree(m, Ctrl(s, "noDtdRef"), Ctrl(s, "noDtd:" \o f))
        THEN " KD=doctypeNodeXercesDOM"           \* without the DOCTYPE the same form agrees with the reference form
-     ELSE IF cfg.out = "sourceTree" /\ Has(s, "noCdataElems:" \o f) /\ Agree(m, Ctrl(s, "noCdataElems:" \o f), s.ref)
-       THEN " KD=sourceTreeTargetDropsCdataText" \* without cdata-section-elements the same form agrees
      ELSE ""
 
 (* which part of Run(cfg, ..) failed *)
